@@ -134,18 +134,19 @@ PROPS = {
     },
     "C12": {
         "props_module": "NexoVerif.Props.C12",
-        "model": "M-QUEUE (NexoVerif/Model/Queue.lean)",
+        "model": "M-QUEUE (NexoVerif/Model/Queue.lean), M-QUEUE-C (QueueC.lean), M-CHAN (Chan.lean)",
         "engines": [{"name": "queue", "rule": "the real mailbox queue Queue<usize> through the verif hook; sequential histories over push/pop/release(MessageBorrow drop)/close/len: all histories up to length 7 (quick) / 9 (thorough) for capacities 1-4, random ones up to 4000/10000 operations for capacities 1-9, 16, 17; responses AND raw words (enqueue_pos, dequeue_pos, every stamp) compared after each operation; real-thread runs (1-3 producers with per-producer sequence numbers, one consumer, a closer thread; 40 rounds quick / 3000 thorough per configuration) checking per-producer FIFO, exactly-once and that every accepted push is received before Closed; non-trivial = queue full at least once or wrapped around; distinct by hash"},
                     {"name": "net", "rule": "the mailbox in its real setting (see C03): benches with capacities 1-4 in which several senders block on one full mailbox while the receiver drains it, on 1-8 threads; a handler still suspended on a channel operation after every call returned Ok is a lost wake-up (monitor), a lost or duplicated message is a C03/C12 monitor hit"}],
         "assumptions": [
-            "L2 (concurrent producers at atomic-step granularity) is proved over M-QUEUE-C for sequentially consistent atomics and logical positions; the Acquire/Release orderings of the stamp accesses are extracted (queue_program_shape) but the proof does not use a weak memory model (the repository's loom tests are the search tool for that); L3 (sender/receiver notification, no lost wake-up) is NOT proved: covered by the real-thread runs of this engine and the blocked-sender scenarios of the net engine (lost-wake-up monitor)",
+            "L2 (concurrent producers at atomic-step granularity) is proved over M-QUEUE-C for sequentially consistent atomics and logical positions; the Acquire/Release orderings of the stamp accesses are extracted (queue_program_shape) but the proof does not use a weak memory model (the repository's loom tests are the search tool for that); L3 (sender/receiver notification, no lost wake-up) is proved over M-CHAN: any number of senders, the lock-protected wait-set operations of async_event::Event and the register/notify operations of DiatomicWaker as atomic steps, spurious polls, every interleaving; the queue enters as the two counters M-QUEUE-C justifies",
+            "async-event 0.2.1 and diatomic-waker 0.2.3 are external crates: their protocol is modelled from their source (WaitUntil::poll, WaitSet insert/remove/cancel/notify; DiatomicWaker wait_until/notify), not verified; the versions are read from Cargo.lock on every run (channel_protocol_shape); cancellation of a pending send (drop of the WaitUntil future) and closing are not in M-CHAN",
             "bit operations of queue.rs are read arithmetically (x & right_mask = x % M, etc.); this reading is tied by comparing the raw words after every operation",
             "usize positions do not wrap (Nat)",
         ],
-        "trusted_base": ["M-QUEUE is hand-written from queue.rs; tied by the `queue` engine (responses and raw words)"],
-        "explanation": "theorems next_pos_is_successor, closed_flag_is_disjoint, positions_strictly_increase, step_refines, seq_refines, len_is_number_held, spec_bounded, spec_fifo_lossless (sequential, bit-level encoding); never_more_than_capacity, received_in_claim_order_exactly_once, each_producer_in_its_own_order, full_only_when_full, closed_only_when_drained, a_pop_reads_a_published_slot, loaded_pos_le, queue_program_shape (any number of concurrent producers, every interleaving of atomic steps)",
-        "level_text": "Lean 4 refinement proof: for every capacity >= 1 and every sequential history the transliterated queue (positions, stamps, closed flag, outstanding borrow) answers exactly like a bounded FIFO specification (Full iff capacity reached, FIFO, exactly once, Closed only when drained, len = number held), with the position arithmetic proved for non-power-of-two capacities; and an invariant proof over the concurrent transition system of the queue (any number of producers and the consumer, every interleaving of their atomic steps, SC): never more than capacity claimed-and-unreleased positions, messages received exactly once in claim order, each producer's messages in its own order, Full only when full, Closed only when drained, a pop reads a completely written slot; tied to queue.rs by differential runs that compare responses and the raw atomic words (the concurrent model is run next to the sequential one), by the extracted order and orderings of the atomic operations, and by real-thread runs; the wake-up clause is covered by execution only",
-        "level_note": "trusted: Lean kernel, propext/Classical.choice/Quot.sound, the differential harness; PARTIAL: the concurrent proof is SC (no weak memory); the no-lost-wake-up clause is checked by execution, not proved",
+        "trusted_base": ["M-QUEUE is hand-written from queue.rs; tied by the `queue` engine (responses and raw words)", "M-CHAN is hand-written from channel.rs and the two signalling crates; tied by the extracted shape of send / recv (predicates, unconditional notify_one after the message is dropped, receiver notification after a push) and by the net engine's blocked-sender runs with the lost-wake-up monitor"],
+        "explanation": "theorems next_pos_is_successor, closed_flag_is_disjoint, positions_strictly_increase, step_refines, seq_refines, len_is_number_held, spec_bounded, spec_fifo_lossless (sequential, bit-level encoding); never_more_than_capacity, received_in_claim_order_exactly_once, each_producer_in_its_own_order, full_only_when_full, closed_only_when_drained, a_pop_reads_a_published_slot, loaded_pos_le, queue_program_shape (any number of concurrent producers, every interleaving of atomic steps); channel_protocol_shape, no_sender_or_receiver_sleeps_through_a_wakeup, a_wakeup_is_always_on_its_way, mailbox_counters_stay_consistent, notifying_only_when_leaving_full_loses_a_wakeup (wake-up protocol, any number of senders)",
+        "level_text": "Lean 4 refinement proof: for every capacity >= 1 and every sequential history the transliterated queue (positions, stamps, closed flag, outstanding borrow) answers exactly like a bounded FIFO specification (Full iff capacity reached, FIFO, exactly once, Closed only when drained, len = number held), with the position arithmetic proved for non-power-of-two capacities; and an invariant proof over the concurrent transition system of the queue (any number of producers and the consumer, every interleaving of their atomic steps, SC): never more than capacity claimed-and-unreleased positions, messages received exactly once in claim order, each producer's messages in its own order, Full only when full, Closed only when drained, a pop reads a completely written slot; tied to queue.rs by differential runs that compare responses and the raw atomic words (the concurrent model is run next to the sequential one), by the extracted order and orderings of the atomic operations, and by real-thread runs; and an invariant proof over the wake-up protocol of channel.rs (M-CHAN, any number of senders, every interleaving incl. spurious polls): whenever nothing is in progress a sender sleeps only while the mailbox is full and the receiver only while it is empty, and in every state a sleeping sender with a free slot has a notification on its way; the weaker rule 'notify only when the pop left the full state' is refuted by a 26-step run",
+        "level_note": "trusted: Lean kernel, propext/Classical.choice/Quot.sound, the differential harness; PARTIAL: the concurrent proofs are SC (no weak memory); the two signalling crates are modelled from their source, not verified; send cancellation and close are outside M-CHAN",
     },
     "C05": {
         "props_module": "NexoVerif.Props.C05",
